@@ -203,6 +203,9 @@ class Chipset(object):
 
         if frame.startswith(self.SOF + b'\xFF\xFF'):
             # extended frame
+            if len(frame) < 10:
+                self.log.error("frame is too short")
+                raise IOError(errno.EIO, os.strerror(errno.EIO))
             if sum(frame[5:8]) & 0xFF != 0:
                 self.log.error("frame lenght checksum error")
                 raise IOError(errno.EIO, os.strerror(errno.EIO))
@@ -212,6 +215,9 @@ class Chipset(object):
             del frame[0:8]
         elif frame.startswith(self.SOF):
             # normal frame
+            if len(frame) < 7:
+                self.log.error("frame is too short")
+                raise IOError(errno.EIO, os.strerror(errno.EIO))
             if sum(frame[3:5]) & 0xFF != 0:
                 self.log.error("frame lenght checksum error")
                 raise IOError(errno.EIO, os.strerror(errno.EIO))
